@@ -37,8 +37,9 @@ Definition gval_of (v : fval) : gval :=
 Definition has_fty (t : fty) (v : fval) : bool :=
   match t, v with
   | TInt k, XInt k' z => ikind_eqb k k' && in_kind k z
-  | TF64, XF64 _ | TStr, XStr _ | TBool, XBool _ | TStrs, XStrs _ => true
-  | TInts k, XInts k' l => ikind_eqb k k' && forallb (in_kind k) l
+  | TF64, XF64 _ | TStr, XStr _ | TBool, XBool _ => true
+  | TStrs, XStrs l => in_i64 (Z.of_nat (length l))
+  | TInts k, XInts k' l => ikind_eqb k k' && forallb (in_kind k) l && in_i64 (Z.of_nat (length l))
   | TMapSI k, XMapSI k' kvs => ikind_eqb k k' && forallb (fun kv => in_kind k (snd kv)) kvs
   | _, _ => false
   end.
